@@ -40,8 +40,8 @@ def make_cases(chk):
     w3 = list(itertools.product(SYMS, repeat=3))
     words += rng.sample(w3, 200 if quick else len(w3))
     if not quick:
-        words += [tuple(rng.choice(SYMS) for _ in range(4)) for _ in range(3000)]
-        words += [tuple(rng.choice(SYMS) for _ in range(5)) for _ in range(2000)]
+        words += [tuple(rng.choice(SYMS) for _ in range(4)) for _ in range(1000)]
+        words += [tuple(rng.choice(SYMS) for _ in range(5)) for _ in range(500)]
     else:
         words += [tuple(rng.choice(SYMS) for _ in range(rng.choice([4, 5]))) for _ in range(80)]
     cases = []
@@ -86,7 +86,7 @@ def make_cases(chk):
         info_at = len(steps) - 1
         distill_at = None
         splits = []
-        if nops >= 1 and netref.n_units(layers) <= (5 if quick else 8):
+        if nops >= 1 and netref.n_units(layers) <= (5 if quick else 6):
             steps.append({"op": "arch_distill", "arch": "A", "name": "whole"})
             distill_at = len(steps) - 1
             steps.append({"op": "export", "tree": "whole"})
@@ -143,6 +143,15 @@ def build_targets(case, res, conv):
         return targets, n0, findings
     ref = W.pieces(conv)
     rounding = any(l["t"] == "hardsigmoid" for l in case["layers"])
+    layers = case["layers"]
+
+    def away_from_breakpoints(xs):
+        # rounding regime: only inputs that are not within 1e-6 of a breakpoint of the network (zero crossing of a
+        # pre-activation, clamp bound, argmax gap) - the property's own wording
+        import z3
+        from core import zfrac
+        d = zfrac(FR(1, 10**6))
+        return [z3.Or(b >= d, b <= -d) for b in netref.net_z3(layers, xs)[1]]
     for k, s0 in case["splits"]:
         for j in range(6):
             if not res[s0 + j]["ok"]:
@@ -154,7 +163,8 @@ def build_targets(case, res, conv):
                 return targets, n0, findings
         targets.append(Target("split at %d of %d" % (k, case["meta"]["accepted_ops"]), "p", res[s0 + 5]["out"], s0 + 5, ref,
                               eps=FR(1, 10**9) if rounding else None, box=(1 << 10) if rounding else None,
-                              tighten=FR(1, 10**6) if rounding else None, sig="split"))
+                              tighten=FR(1, 10**6) if rounding else None, sig="split",
+                              extra_fn=away_from_breakpoints if rounding else None))
     return targets, n0, findings
 
 
@@ -173,7 +183,7 @@ def main():
                               "accepted architecture is distilled (no panic, terminal output dimension = current_shape) - a comparison "
                               "over an enumerated space, not a solver verdict; clause (ii): for every split point k z3 decides that "
                               "tree(0..k) composed with tree(k..n) equals tree(0..n) for all inputs (exact; 1e-9 with hard sigmoid)")
-    chk.cov["bounds"] = {"sequence_length": 5, "widths": 3, "activation_units_for_distillation": 5 if chk.tier == "quick" else 8}
+    chk.cov["bounds"] = {"sequence_length": 5, "widths": 3, "activation_units_for_distillation": 5 if chk.tier == "quick" else 6}
     chk.assumptions += ["read_layers (npz parsing) is outside the claim", "inputs: all reals (solver); call sequences enumerated/seeded"]
     return chk.finish()
 
